@@ -117,6 +117,10 @@ void vf_stall_disarm(void);
 bool vf_stall_reached(void);
 void vf_stall_release(void);
 void vf_stall_reset(void);
+/* a second, independent failpoint (slot 1) with the same semantics */
+void vf_stall2_arm(const char *func, int op, int phase, uint64_t max_ns);
+bool vf_stall2_reached(void);
+void vf_stall2_release(void);
 
 /* coverage: hits of hooked atomics, by function */
 uint64_t vf_site_hits(const char *func);      /* sum over all lines, phase 0 only */
